@@ -85,6 +85,44 @@ Definition tree_model_bad (c : tree_case) : bool :=
 Definition tree_oracle_bad (c : tree_case) : bool :=
   negb (same_paths (tc_listed c) (tc_survived c)).
 
+(** * Two plays into one output directory *)
+Record duo_case := {
+  du_same_second : bool;        (* true: B is started within the second in which A started (A fouled, B clean);
+                                   false: A clean, long, --clear; B starts 1.3 s later and ends first *)
+  du_setup_ok : bool;           (* the timing was achieved (otherwise the case says nothing) *)
+  du_exit_a : bool; du_exit_b : bool;      (* exit status <> 0 *)
+  du_nruns : N;                 (* run directories under the output directory afterwards *)
+  du_a_own : bool;              (* same second: A's directory holds A's artifacts, a result.js with Foul = true, and
+                                   nothing of B's actor *)
+  du_latest_to_b : bool;        (* overlap: latest resolves to B's run directory, which exists *)
+  du_a_gone : bool;             (* overlap: A's run directory was erased *)
+}.
+Definition duo_ids (c : duo_case) : bytes * bytes :=
+  if du_same_second c then (bs "1", bs "1") else (bs "1", bs "2").
+Definition duo_model_bad (c : duo_case) : bool :=
+  if negb (du_setup_ok c) then false else
+  let st0 := {| od_alias := ANone; od_runs := [] |} in
+  let '(a, b) := duo_ids c in
+  match start_run a st0 with
+  | None => true
+  | Some sa =>
+      match start_run b sa with
+      | None =>       (* B refused; A (fouled) keeps everything *)
+          negb (du_same_second c && du_exit_b c && du_exit_a c && (du_nruns c =? 1)%N && du_a_own c)
+      | Some sb =>
+          let fin := end_run a true sb in
+          negb (negb (du_same_second c) && negb (du_exit_a c) && negb (du_exit_b c)
+                && match alias_leads_to fin with Some x => bytes_eqb x b && du_latest_to_b c | None => false end
+                && du_a_gone c && (du_nruns c =? 1)%N)
+      end
+  end.
+(** Plain meaning: each run's results are its own; latest leads to the run
+    directory of the run that made it last. *)
+Definition duo_oracle_bad (c : duo_case) : bool :=
+  if negb (du_setup_ok c) then false
+  else if du_same_second c then negb (du_exit_a c && du_a_own c && (du_exit_b c || (2 <=? du_nruns c)%N))
+  else negb (du_latest_to_b c && du_a_gone c && negb (du_exit_a c) && negb (du_exit_b c)).
+
 (** * Plays *)
 Record play_case := {
   pc_keep : bool; pc_clear : bool; pc_noplot : bool; pc_quiet : bool; pc_upload : bool;
